@@ -14,10 +14,16 @@ struct node_mirror { const void *key; void *val; struct cstl_rbtree_node n; };
 struct kobj { int tag; int value; };
 static struct kobj KO[MAXK + 1][3];
 static int VO[3];
-static int NK, FAULTS, PROBES = 1;
+static int FAULTS, PROBES = 1;
 static cstl_map_t M;
 
-static int kcmp(const void *a, const void *b, void *p) { e_check_priv(p); return e_cmp3(((const struct kobj *)a)->value, ((const struct kobj *)b)->value); }
+/* Keys are whatever the caller's comparison function makes of a const void *: the NULL pointer is a key like any
+ * other.  Object #1 of model key NULLK is the NULL pointer (object #2 of that key is an ordinary object with the
+ * same value), whenever the scope has that many keys. */
+#define NULLK 2
+static int NK;
+static int kval(const void *k) { return k ? ((const struct kobj *)k)->value : 1000 - (NK + 1 - NULLK); }
+static int kcmp(const void *a, const void *b, void *p) { e_check_priv(p); return e_cmp3(kval(a), kval(b)); }
 static int ko_id(const void *k) { const struct kobj *o = k; if (!k) return 0; if (o < &KO[0][0] || o > &KO[MAXK][2]) return -1; return (int)((o - &KO[0][0]) % 3); }
 static int k_of(const void *k) { const struct kobj *o = k; if (!k) return 0; if (o < &KO[0][0] || o > &KO[MAXK][2]) return -1; return (int)((o - &KO[0][0]) / 3); }
 static int vo_id(const void *v) { const int *o = v; if (!v) return 0; if (o < &VO[0] || o > &VO[2]) return -1; return (int)(o - &VO[0]); }
@@ -36,15 +42,16 @@ static void drv_header(jb_t *b) { jb_printf(b, "\"nk\":%d", NK); }
 static void drv_reset(void) { a_reset(); cstl_map_init(&M, kcmp, E_PRIV); }
 static void drv_aborted(void) { a_end(); }
 /* model key k (1..NK, ascending order of comparison) is stored in KO[NK + 1 - k] (descending addresses) */
-static struct kobj *kobj(int k, int j) { return &KO[NK + 1 - k][j]; }
-static int model_k(const void *key) { int i = k_of(key); return i <= 0 ? i : NK + 1 - i; }
+static struct kobj *kobj(int k, int j) { return (k == NULLK && j == 1 && NK >= NULLK) ? NULL : &KO[NK + 1 - k][j]; }
+static int model_k(const void *key) { int i = k_of(key); if (!key && NK >= NULLK) return NULLK; return i <= 0 ? i : NK + 1 - i; }   /* key of a stored entry */
+static int ko_of_entry(const void *key) { return (!key && NK >= NULLK) ? 1 : ko_id(key); }
 
-static void it_json(jb_t *res, const cstl_map_iterator_t *i) { jb_printf(res, ",\"it\":[%d,%d]", ko_id(i->key), vo_id(i->val)); }
+static void it_json(jb_t *res, const cstl_map_iterator_t *i) { jb_printf(res, ",\"it\":[%d,%d]", i->val ? ko_of_entry(i->key) : ko_id(i->key), vo_id(i->val)); }   /* the end iterator has neither key nor value */
 static void clear_cb(void *ip, void *p)
 {
     cstl_map_iterator_t *i = ip;
     e_check_priv(p);
-    ev_add("[\"c\",%d,%d,%d]", model_k(i->key), ko_id(i->key), vo_id(i->val));
+    ev_add("[\"c\",%d,%d,%d]", model_k(i->key), ko_of_entry(i->key), vo_id(i->val));
 }
 static void drv_apply(const vop_t *op, jb_t *res)
 {
@@ -133,7 +140,7 @@ static void drv_ser(jb_t *b)
         jb_puts(b, "]");
     }
     jb_puts(b, ",\"ko\":[");
-    for (k = 1; k <= NK; k++) jb_printf(b, "%s%d", k > 1 ? "," : "", slot[k] && !malformed ? ko_id(slot[k]->key) : 0);
+    for (k = 1; k <= NK; k++) jb_printf(b, "%s%d", k > 1 ? "," : "", slot[k] && !malformed ? ko_of_entry(slot[k]->key) : 0);
     jb_puts(b, "],\"vo\":[");
     for (k = 1; k <= NK; k++) jb_printf(b, "%s%d", k > 1 ? "," : "", slot[k] && !malformed ? vo_id(slot[k]->val) : 0);
     jb_printf(b, "],\"nlive\":%d,\"damage\":%s,\"bad\":%s}", a_live_count(), a_check() ? "true" : "false", malformed ? "true" : "false");
